@@ -67,7 +67,7 @@ def execute(cases_, tier, seed):
         tier, "" if tier == "quick" else " + depth-3 space + pairs", wirefam.DEPTH.get(tier, 2))
     res.assumptions = ["validity = python jsonschema Draft7 with integer formats read as ranges; unformatted integers clipped to i64",
                        "cases typify rejects or whose output does not compile are C01's business and are skipped here (counted)"]
-    if len(cases_) > 20 and (n_valid < 100 or n_invalid < 100):
+    if not res.violations and (len(cases_) > 20 and (n_valid < 100 or n_invalid < 100)):   # a subject that breaks everything is reported through its violations, not as vacuity
         raise MachineryError("vacuity guard: valid=%d invalid=%d" % (n_valid, n_invalid))
     if trunc:
         res.exhaustive = False
